@@ -59,11 +59,7 @@ func vfLimCacheSizes(t *TraefikOidc) (tokens int, blacklist int) {
 	return vfLimCacheLen(t.tokenCache.cache), vfLimCacheLen(t.tokenBlacklist)
 }
 
-func vfLimCacheLen(c *Cache) int {
-	c.mutex.Lock()
-	defer c.mutex.Unlock()
-	return len(c.items)
-}
+func vfLimCacheLen(c *Cache) int { return vfCacheLen(c) }
 
 // vfLimReplayHas: has jwt.Verify recorded this jti in the process-global replay map?
 func vfLimReplayHas(jti string) bool {
